@@ -79,15 +79,17 @@ def _install():
         except Exception:
             return None, None
 
-    def wrap(cls, name, handler):
+    def wrap(cls, name, handler, group="loc"):
+        """outermost call only, per group of wrapped classes (a Location call made inside a traced CDS / transcript
+        method is still an outermost Location call)"""
         orig = getattr(cls, name)
 
         @functools.wraps(orig)
         def wrapper(self, *a, **k):
-            d = getattr(_depth, "n", 0)
+            d = getattr(_depth, group, 0)
             if d > 0 or not _OUT:
                 return orig(self, *a, **k)
-            _depth.n = 1
+            setattr(_depth, group, 1)
             try:
                 res, exc = None, None
                 try:
@@ -102,7 +104,7 @@ def _install():
                     except Exception:
                         pass
             finally:
-                _depth.n = 0
+                setattr(_depth, group, 0)
 
         setattr(cls, name, wrapper)
 
@@ -226,7 +228,7 @@ def _install():
         _emit("C05Trace", ["tr1", d[0], d[1], d[2], bool(args[0]), table, bool(args[2]),
                            oc(res, exc, lambda r: [list(str(r))])])
 
-    wrap(CDSInterval, "translate", h_translate)
+    wrap(CDSInterval, "translate", h_translate, "cds")
 
     # ---------------- C06: position conversions of whole transcripts (coordinates re-based to the transcript start)
     def tx_desc(t):
@@ -257,10 +259,10 @@ def _install():
             _emit("C06Trace", ["m1", d[1], d[2], kind, p, oc(res, exc, enc)])
         return h
 
-    wrap(TranscriptInterval, "sequence_pos_to_transcript", posconv("s2t", True))
-    wrap(TranscriptInterval, "transcript_pos_to_sequence", posconv("t2s", False))
-    wrap(TranscriptInterval, "sequence_pos_to_cds", posconv("s2c", True))
-    wrap(TranscriptInterval, "cds_pos_to_sequence", posconv("c2s", False))
+    wrap(TranscriptInterval, "sequence_pos_to_transcript", posconv("s2t", True), "tx")
+    wrap(TranscriptInterval, "transcript_pos_to_sequence", posconv("t2s", False), "tx")
+    wrap(TranscriptInterval, "sequence_pos_to_cds", posconv("s2c", True), "tx")
+    wrap(TranscriptInterval, "cds_pos_to_sequence", posconv("c2s", False), "tx")
 
     # ---------------- C16: every call of the binning function
     import sys
